@@ -13,17 +13,21 @@
    encodings of a digest.                                                                                  *)
 EXTENDS VUtil
 
-Scalar(name, w) == [name |-> name, kind |-> "scalar", width |-> w]
-Blob(name, w)   == [name |-> name, kind |-> "blob", width |-> w]
-VBlob(name)     == [name |-> name, kind |-> "vblob", width |-> 1]
+Scalar(name, w) == [name |-> name, kind |-> "scalar", width |-> w, inner |-> ""]
+Blob(name, w)   == [name |-> name, kind |-> "blob", width |-> w, inner |-> ""]
+VBlob(name)     == [name |-> name, kind |-> "vblob", width |-> 1, inner |-> ""]
+\* a batch Merkle opening: one byte = number of node vectors, then per vector one byte = number of digests and the digests
+PathsBlob(name) == [name |-> name, kind |-> "blob", width |-> 4, inner |-> "paths"]
 
 Header == << Scalar("ti.main_width", 1), Scalar("ti.aux_width", 1), Scalar("ti.rands", 1), Scalar("ti.len_log2", 1),
              Blob("ti.meta", 2), Blob("modulus", 1),
              Scalar("opt.queries", 1), Scalar("opt.blowup", 1), Scalar("opt.grinding", 1), Scalar("opt.extension", 1),
              Scalar("opt.folding", 1), Scalar("opt.remainder", 1),
              Scalar("unique_queries", 1), Blob("commitments", 2) >>
-QueryGroup(p) == << Blob(p \o ".values", 4), Blob(p \o ".paths", 4) >>
-Ood == << Blob("ood.trace", 2), Blob("ood.lagrange", 2), Blob("ood.evaluations", 2) >>
+QueryGroup(p) == << Blob(p \o ".values", 4), PathsBlob(p \o ".paths") >>
+\* the Lagrange kernel frame: one byte = number of elements, then the elements
+LagBlob(name) == [name |-> name, kind |-> "blob", width |-> 2, inner |-> "lagframe"]
+Ood == << Blob("ood.trace", 2), LagBlob("ood.lagrange"), Blob("ood.evaluations", 2) >>
 \* the optional GKR proof closes the proof: a tag byte, then (if present) a byte vector with a vint64 length prefix (one
 \* byte, 2 * length + 1, for the lengths that occur)
 Tail_(gkr) == << Blob("fri.remainder", 2), Scalar("fri.partitions", 1), Scalar("pow_nonce", 8), Scalar("gkr.tag", 1) >>
@@ -50,7 +54,17 @@ VBlobMutations  == BlobMutations \cup {"prefix-wide"}
 \* one-byte scalars (counts, sizes, exponents, option fields): every value, so that semantic boundaries (the largest valid
 \* exponent, the largest valid option) are met whatever they are
 ByteSet == {"set:" \o ToString(x) : x \in 0..255}
-MutationsOf(f) == IF f.kind = "scalar" /\ f.width = 1 /\ f.name # "gkr.tag"
+\* shape changes inside a batch Merkle opening that keep every length prefix consistent (the C10 shape mutations, at proof level)
+PathsMutations == {"inner-drop-last-digest", "inner-add-digest", "inner-drop-vector", "inner-add-empty-vector", "inner-move-digest",
+                   "inner-empty-vector"}
+\* a Lagrange kernel frame with one element fewer / more (count byte and length prefix consistent), and a frame where none belongs
+LagMutations == {"lag-drop-element", "lag-add-element", "lag-make-frame"}
+\* whole FRI layers added (copies of the last one) or removed together with the layer count
+LayerMutations == {"add-layer-copies:" \o ToString(k) : k \in {1, 2, 3, 4, 6, 12}} \cup {"remove-last-layer"}
+MutationsOf(f) == IF f.name = "fri.num_layers" THEN {[field |-> f.name, m |-> x] : x \in ByteSet \cup LayerMutations} ELSE
+                  IF f.inner = "lagframe" THEN {[field |-> f.name, m |-> x] : x \in BlobMutations \cup LagMutations} ELSE
+                  IF f.inner = "paths" THEN {[field |-> f.name, m |-> x] : x \in BlobMutations \cup PathsMutations} ELSE
+                  IF f.kind = "scalar" /\ f.width = 1 /\ f.name # "gkr.tag"
                   THEN {[field |-> f.name, m |-> x] : x \in ByteSet} ELSE
                   IF f.kind = "vblob" THEN {[field |-> f.name, m |-> x] : x \in VBlobMutations} ELSE
                   IF f.kind = "scalar" THEN {[field |-> f.name, m |-> x] : x \in ScalarMutations \cup (IF f.name = "gkr.tag" THEN OptionMutations ELSE {})}
